@@ -1,4 +1,5 @@
 import Gmx.Model.Vault
+import Gmx.Model.Router
 import Gmx.Gen.C22Sites
 import Gmx.Model.Life
 import Gmx.Lemmas.Life2
@@ -486,5 +487,136 @@ example : (Life2.run (Life2.init 10000 5000 100)
      .create 0 1 0 100 0 false 0, .exec .keeper 0 1 0 0 true false 333 50]).1.recLong = 1667 := by decide
 
 end Life2
+
+/-! ## the swap router validates every output market with ALL of its pending outputs excluded
+
+After a multi-market swap the output amounts remain deposited in their output markets and are paid out by
+the enclosing instruction (withdrawal, decrease order). `revertible_swap` therefore validates each output
+market with what is about to leave it excluded. When both sides end in the same market and the same token,
+both amounts must be excluded AT ONCE: checking them one at a time accepts a state in which paying both out
+leaves the recorded balance below the position collateral. -/
+section Router
+
+/-- two exclusions of the same long-side token accumulate to their sum -/
+theorem excl_same_long (m : RMarket) (t a₁ a₂ : Nat) (hs : m.side t = some true) (e : Nat × Nat)
+    (h : m.excl t t a₁ a₂ = some e) : e = (a₁ + a₂, 0) := by
+  unfold RMarket.excl RMarket.exclSide at h
+  simp only [hs] at h
+  by_cases h1 : a₁ = 0 <;> by_cases h2 : a₂ = 0
+  · simp [h1, h2] at h; simp [h1, h2, ← h]
+  · simp only [h1, h2, if_true, if_false, Option.bind_some, Nat.zero_add] at h
+    split at h
+    · cases h; simp [h1]
+    · cases h
+  · simp only [h1, h2, if_true, if_false, Nat.zero_add] at h
+    split at h
+    · simp at h; simp [h2, ← h]
+    · cases h
+  · simp only [h1, h2, if_false, Nat.zero_add] at h
+    split at h
+    · simp only [Option.bind_some, h2, if_false] at h
+      split at h
+      · cases h; rfl
+      · cases h
+    · cases h
+
+/-- … and of the same short-side token -/
+theorem excl_same_short (m : RMarket) (t a₁ a₂ : Nat) (hs : m.side t = some false) (e : Nat × Nat)
+    (h : m.excl t t a₁ a₂ = some e) : e = (0, a₁ + a₂) := by
+  unfold RMarket.excl RMarket.exclSide at h
+  simp only [hs] at h
+  by_cases h1 : a₁ = 0 <;> by_cases h2 : a₂ = 0
+  · simp [h1, h2] at h; simp [h1, h2, ← h]
+  · simp only [h1, h2, if_true, if_false, Option.bind_some, Nat.zero_add] at h
+    split at h
+    · cases h; simp [h1]
+    · cases h
+  · simp only [h1, h2, if_true, if_false, Nat.zero_add] at h
+    split at h
+    · simp at h; simp [h2, ← h]
+    · cases h
+  · simp only [h1, h2, if_false, Nat.zero_add] at h
+    split at h
+    · simp only [Option.bind_some, h2, if_false] at h
+      split at h
+      · cases h; rfl
+      · cases h
+    · cases h
+
+/-- excluding two amounts of the same long-side token from an impure market checks them JOINTLY -/
+theorem validExcl_joint_long (m : RMarket) (t a₁ a₂ : Nat) (hp : m.isPure = false) (hs : m.side t = some true)
+    (h : m.validExcl t t a₁ a₂ = true) : m.colL + a₁ + a₂ ≤ m.balL := by
+  unfold RMarket.validExcl at h
+  split at h
+  · cases h
+  · rename_i e he
+    have := excl_same_long m t a₁ a₂ hs e he
+    subst this
+    simp only [RMarket.validBalances, hp, Bool.false_eq_true, if_false, RMarket.colOk, Bool.false_or, if_true,
+      Bool.and_eq_true, decide_eq_true_eq] at h
+    omega
+
+theorem validExcl_joint_short (m : RMarket) (t a₁ a₂ : Nat) (hp : m.isPure = false) (hs : m.side t = some false)
+    (h : m.validExcl t t a₁ a₂ = true) : m.colS + a₁ + a₂ ≤ m.balS := by
+  unfold RMarket.validExcl at h
+  split at h
+  · cases h
+  · rename_i e he
+    have := excl_same_short m t a₁ a₂ hs e he
+    subst this
+    simp only [RMarket.validBalances, hp, Bool.false_eq_true, if_false, RMarket.colOk, Bool.false_or, if_true,
+      Bool.and_eq_true, decide_eq_true_eq] at h
+    omega
+
+/-- a successful action swap passed the final validation (by construction of the router) -/
+theorem routerSwap_final_validated {into : Bool} {s s' : RState} {p₁ p₂ : List Nat} {e : Nat × Nat}
+    {ti : Option Nat × Option Nat} {am : Nat × Nat} {o₁ o₂ : Nat}
+    (h : routerSwap into s p₁ p₂ e ti am = some (s', o₁, o₂)) :
+    finalBalCheck into s' p₁ p₂ e o₁ o₂ = true := by
+  unfold routerSwap at h
+  split at h
+  · cases h
+  · split at h
+    · cases h
+    · simp only [] at h
+      split at h
+      · cases h
+      · split at h
+        · cases h
+        · split at h
+          · cases h
+          · split at h
+            · rename_i hc
+              simp only [Option.some.injEq, Prod.mk.injEq] at h
+              obtain ⟨rfl, rfl, rfl⟩ := h
+              simp only [Bool.and_eq_true] at hc
+              exact hc.2
+            · cases h
+
+/-- **both outputs in one market and one token are covered together**: after a successful swap OUT of the
+current market whose two paths end in the same provided market `x` with the same output token `t` on `x`'s
+long side, `x`'s recorded long balance covers its position collateral plus BOTH output amounts. -/
+theorem same_market_outputs_jointly_covered {s s' : RState} {p₁ p₂ : List Nat} {t : Nat}
+    {ti : Option Nat × Option Nat} {am : Nat × Nat} {o₁ o₂ : Nat} {x : Nat} {m : RMarket}
+    (h : routerSwap false s p₁ p₂ (t, t) ti am = some (s', o₁, o₂))
+    (h1 : p₁.getLast? = some x) (h2 : p₂.getLast? = some x) (hx : x ≠ s'.cur.token)
+    (hm : findMarket s'.markets x = some m) (hp : m.isPure = false) (hs : m.side t = some true) :
+    m.colL + o₁ + o₂ ≤ m.balL := by
+  have hf := routerSwap_final_validated h
+  unfold finalBalCheck at hf
+  simp only [h1, h2, Option.getD_some, Bool.false_eq_true, if_false, if_true, hx, hm, Bool.and_eq_true] at hf
+  exact validExcl_joint_long m t o₁ o₂ hp hs hf.1
+
+/-- non-vacuity state: collateral `col` of token 13 in market 2 (balance 1000) -/
+def exSt (col : Nat) : RState :=
+  { markets := [⟨2, 12, 13, 1000, 1000, 0, 0, 0, col⟩], cur := ⟨0, 12, 12, 5000, 0, 0, 0, 0, 0⟩, outs := [30, 30], trace := [] }
+
+/-- outputs 30 + 30 are rejected jointly at collateral 950 although each alone would pass; at 940 the swap goes through -/
+example :
+    (routerSwap false (exSt 950) [2] [2] (13, 13) (some 12, some 12) (40, 40)).isSome = false ∧
+    (routerSwap false (exSt 940) [2] [2] (13, 13) (some 12, some 12) (40, 40)).isSome = true ∧
+    (⟨2, 12, 13, 1080, 1000, 0, 0, 0, 950⟩ : RMarket).validExcl 13 13 30 0 = true := by decide
+
+end Router
 
 end Gmx.C22
